@@ -104,7 +104,7 @@ def unquote_tlc(s):
     return s.replace('\\"', '"').replace("\\\\", "\\")
 
 # ---------------------------------------------------------------- real code
-def run_vh(args, timeout=900, binary=None):
+def run_vh(args, timeout=900, binary=None, ok_codes=(0, 97)):
     binary = binary or os.path.join(BUILD, "vh")
     try:
         p = subprocess.run([binary] + args, capture_output=True, text=True, timeout=timeout, env=GOENV)
@@ -116,7 +116,7 @@ def run_vh(args, timeout=900, binary=None):
         info["events"] = int(m.group(1))
     m = re.search(r"VERIF_HANG (.*)", p.stderr)
     info["hang"] = m.group(1) if m else None
-    if p.returncode not in (0, 97):
+    if p.returncode not in ok_codes:
         raise MachineryError(f"driver failed rc={p.returncode}: {' '.join(args)}\n{p.stderr[-3000:]}")
     return info
 
